@@ -45,8 +45,8 @@ def maybeDiscoverPort (maxRetries : Int) (svr : Server) : Prog Unit :=
     | .ok _ =>
       let pending := { svr with status := Status.update svr.status Status.portRetry }
       .call (.updateServer pending fun c =>
-          -- `conflict.HasDiscoveryStatus(ds.Port | ds.PortRetry)`: refuses only when BOTH bits are set
-          if Status.has c.status (Status.port ||| Status.portRetry) then none
+          -- `conflict.HasAnyDiscoveryStatus(ds.Port | ds.PortRetry)` (repaired: it used to demand both bits)
+          if Status.hasAny c.status (Status.port ||| Status.portRetry) then none
           else some { c with status := Status.update c.status Status.portRetry }) fun _ => pure ()
 
 /-- `reportserver.UseCase.Execute` -/
